@@ -24,11 +24,12 @@ from pvc import models as _models  # noqa: E402
 _RT = ["contracts.runtime"]
 _IN = ["contracts.interpret"]
 _OV = ["contracts.overlay"]
+_LC = ["contracts.lifecycle"]
 CONTRACT_MODULES = {
     "C12": ["contracts.c12"],
     "C04": ["contracts.c12"] + _RT,
     "C02": _RT + _OV + _IN, "C16": _RT, "C01": _RT,
-    "C03": _OV + _IN, "C07": _OV + _IN, "C11": _IN,
+    "C03": _OV + _IN, "C07": _OV + _IN, "C11": _IN + _OV, "C05": _OV + _LC, "C09": _OV, "C17": _OV + _LC, "C10": _OV + _LC, "C14": _LC, "C18": _LC,
 }
 
 UNIT_WALL_BUDGET = {"quick": 150, "thorough": 600}
